@@ -573,11 +573,55 @@ def fn_param_slot(F, body, o):
     if o.kind == 'param' and body.path == top:
         return o.key
     if o.kind == 'upvar' and o.key is not None and tb is not None:
+        # structurally: what the creating body captured for this upvar - a parameter of the enclosing fn, possibly through a
+        # conversion (`src.to_path_buf()`, `.clone()`) and through several nesting levels
+        slots = _capture_slots(F, body, int(o.key), 0)
+        if slots is not None and len(slots) == 1:
+            return list(slots)[0]
         name = body.upvars.get(int(o.key))
         if name:
             for i in range(1, tb.argc + 1):
                 if tb.local_name(i) == name:
                     return i
+    return None
+
+
+_CAPTURE_CONV = ('to_path_buf', 'to_owned', 'clone', 'to_string', 'as_ref', 'deref', 'borrow', 'into', 'from', 'as_path', 'as_str', 'to_os_string', 'into_os_string')
+
+
+def _capture_slots(F, body, k, depth):
+    if depth > 5 or not body.parent:
+        return None
+    pb = F.body(body.parent)
+    if pb is None:
+        return None
+    pfl = flow_of(pb)
+    top = body.path.split('::{')[0]
+    for blk in pb.blocks:
+        for st in blk['stmts']:
+            rv = st['rv']
+            if rv['k'] == 'agg' and rv.get('ak') in ('closure', 'coroutine') and norm(rv.get('def')) == body.path and k < len(rv['ops']):
+                out = set()
+                work = [rv['ops'][k]]
+                steps = 0
+                while work and steps < 30:
+                    steps += 1
+                    op = work.pop()
+                    for x in pfl.origins(op):
+                        if x.kind == 'comb':
+                            continue
+                        if x.kind == 'param' and pb.path == top:
+                            out.add(x.key)
+                        elif x.kind == 'upvar' and x.key is not None:
+                            sub = _capture_slots(F, pb, int(x.key), depth + 1)
+                            if sub is None:
+                                return None
+                            out |= sub
+                        elif x.kind == 'call' and x.bb is not None and str(x.key).split('::')[-1] in _CAPTURE_CONV and pb.blocks[x.bb]['term']['args']:
+                            work.append(pb.blocks[x.bb]['term']['args'][0])
+                        else:
+                            return None
+                return out or None
     return None
 
 
